@@ -654,6 +654,15 @@ def _workbook_readback(tier="quick", seed=0):
     for a, b in zip(PRECISE, reversed(PRECISE)):
         sp.add_data_point(a, b, abs(a) + 1.000001)
     cases.append(("bubble values with many significant digits", XL_CHART_TYPE.BUBBLE, bb))
+    import datetime as _dt
+
+    for lbl, cats in (("numeric categories with zero inside", [-1, 0, 1, 2.5]), ("numeric categories starting at zero", [0, 0.5, 1]), ("numeric categories 0.0 and -0.0", [1, 0.0, -0.0, 7]),
+                      ("date categories", [_dt.date(1900, 1, 1), _dt.date(1900, 2, 28), _dt.date(1900, 3, 1), _dt.date(2024, 2, 29)]),
+                      ("string categories that look empty or numeric", ["", "0", " ", "None", "False", "1e3"])):
+        cd = CategoryChartData()
+        cd.categories = cats
+        cd.add_series("s", tuple(range(len(cats))))
+        cases.append((lbl, XL_CHART_TYPE.LINE, cd))
     cd = CategoryChartData()
     g1 = cd.add_category("G1")
     g1.add_sub_category("x")
@@ -780,7 +789,7 @@ def _workbook_readback(tier="quick", seed=0):
                     col = cols[depth - 1 - k]
                     for pt in lvl.xpath("./c:pt", namespaces=cns):
                         idx = int(pt.get("idx"))
-                        v = pt.xpath("c:v/text()", namespaces=cns)[0]
+                        v = (pt.xpath("c:v/text()", namespaces=cns) or [""])[0]
                         cell = cells.get((col, r1 + idx))
                         if str(cell) != v:
                             bad = "%s: %s level %d pt idx=%d cached %r, workbook cell %r holds %r" % (label, f, k, idx, v, (col, r1 + idx), cell)
@@ -792,10 +801,16 @@ def _workbook_readback(tier="quick", seed=0):
                 continue
             for pt in ref.xpath(".//c:pt", namespaces=cns):
                 idx = int(pt.get("idx"))
-                v = pt.xpath("c:v/text()", namespaces=cns)[0]
+                v = (pt.xpath("c:v/text()", namespaces=cns) or [""])[0]
                 cell = cells.get(coords[idx])
                 # a workbook number is stored by XlsxWriter with 16 significant digits ("%.16G"): agreement is to that precision
-                same = (str(cell) == v) or (isinstance(cell, float) and (float(v) == cell or float("%.16g" % float(v)) == cell))
+                def num(x):
+                    try:
+                        return float(x)
+                    except ValueError:
+                        return None
+
+                same = (str(cell) == v) or (v == "" and cell is None) or (isinstance(cell, float) and num(v) is not None and (num(v) == cell or float("%.16g" % num(v)) == cell))
                 if not same:
                     bad = "%s: %s pt idx=%d cached %r, workbook cell %r holds %r" % (label, f, idx, v, coords[idx], cell)
                     break
